@@ -16,7 +16,8 @@ WORK = os.path.join(ROOT, "work")
 SPEC = os.path.join(ROOT, "spec")
 HARNESS = os.path.join(ROOT, "harness")
 REPO = "/repo"
-TLA_LIB = ":".join([SPEC, os.path.join(SPEC, "mech"), os.path.join(SPEC, "mc"), os.path.join(SPEC, "trace")])
+# work/gen holds LayoutSrc.tla regenerated from /repo/src/lib.rs (it shadows the committed placeholder spec/gen)
+TLA_LIB = ":".join([os.path.join(WORK, "gen"), SPEC, os.path.join(SPEC, "mech"), os.path.join(SPEC, "mc"), os.path.join(SPEC, "trace"), os.path.join(SPEC, "gen")])
 
 
 class ToolError(Exception):
@@ -402,6 +403,20 @@ def match_finding(prop, scn, reject, findings):
     return None
 
 
+def refresh_layout_src():
+    """spec/Layout.tla reads the storage structs' field lists / repr attributes from LayoutSrc.tla, which is
+    regenerated from the current /repo/src/lib.rs; if the source cannot be parsed the placeholder is used
+    (only C01/C19 depend on it and they call the parser themselves)."""
+    try:
+        import srcparse
+        srcparse.write_layout_src(srcparse.parse_layout_src(), os.path.join(WORK, "gen", "LayoutSrc.tla"))
+    except Exception:
+        try:
+            os.remove(os.path.join(WORK, "gen", "LayoutSrc.tla"))
+        except OSError:
+            pass
+
+
 class Check:
     def __init__(self, prop, tier, seed, level="model_checking"):
         self.prop, self.tier, self.seed, self.level = prop, tier, seed, level
@@ -418,6 +433,7 @@ class Check:
         self.known = []
         self.findings = load_findings()
         self.distinct = set()
+        refresh_layout_src()
 
     # -- model checking stage
     def mc(self, module, cfg=None, **kw):
